@@ -32,3 +32,77 @@ def pmap(fn, items, jobs=None):
 
 def short(site):
     return "src/ecdsa/%s.py:%d" % (site[0], site[1])
+
+
+# ---------------------------------------------------------------------------------------
+# rest-consumption rule (shared by C08, C09, C12): every remainder returned by a DER reader
+# called directly from `qname` is either handed to a later reader or proven empty at every
+# normal return of `qname` that lies on a path through that call.
+def der_readers(p):
+    out = []
+    for f in p.modules["der"].funcs.values():
+        if f.qual.startswith("remove_") and "." not in f.qual:
+            out.append(f.qname)
+    return sorted(out)
+
+
+def _subterms(t, acc):
+    from sa.lin import S
+    if isinstance(t, S):
+        t = t.t
+    if isinstance(t, tuple):
+        acc.add(t)
+        for x in t:
+            if isinstance(x, (tuple, S)):
+                _subterms(x, acc)
+    return acc
+
+
+def mentions(st, term):
+    for l in st.cons.ges:
+        for k in l.co:
+            if term in _subterms(k, set()):
+                return True
+    return False
+
+
+def rest_consumption(W, qname, args, kwargs=None, state=None, exempt=()):
+    """-> (results, interp) ; results = list of dicts {site, reader, ok, why}"""
+    from sa.values import VBytes, VTuple
+    from sa.lin import Lin
+    it = W.interp()
+    it.return_merge_limit = 64
+    it.entry_merge_limit = None
+    readers = der_readers(W.p)
+    for r in readers:
+        it.watch_results[r] = []
+    it.watch_returns[qname] = []
+    rets, raises = it.analyse(qname, args, kwargs or {}, state=state)
+    finals = it.watch_returns[qname]
+    recs = []
+    for r in readers:
+        for caller, site, cargs, ckw, st, res in it.watch_results[r]:
+            if caller == qname:
+                recs.append((r, site, cargs, res))
+    consumed_terms = set()
+    for r, site, cargs, res in recs:
+        if cargs and isinstance(cargs[0], VBytes):
+            consumed_terms.add(cargs[0].t)
+    out = {}
+    for r, site, cargs, res in recs:
+        key = (site[1], site[2])
+        ent = out.setdefault(key, {"site": site, "reader": r, "ok": True, "why": "", "n": 0, "exempt": site[2] in exempt})
+        for v, s in res:
+            rest = v.items[-1] if isinstance(v, VTuple) and v.items else None
+            if not isinstance(rest, VBytes):
+                continue
+            ent["n"] += 1
+            t = rest.t
+            if t in consumed_terms:
+                continue
+            on_path = [fs for _v, fs in finals if mentions(fs, t)]
+            for fs in on_path:
+                if not fs.proves_eq(Lin.sym(("len", t))):
+                    ent["ok"] = False
+                    ent["why"] = "remainder of `%s` is neither passed to another reader nor proven empty at a normal return" % site[2][:70]
+    return list(out.values()), it, raises
